@@ -200,14 +200,14 @@ func (e *vEnv) broadcast(m ConsensusPayload[vhash]) {
 				vAssert("C04.O1.fromprimary", uint(req.vidx) == d.GetPrimaryIndex(d.ViewNumber) && req.typ == PrepareRequestType && req.view == d.ViewNumber)
 				vAssert("C04.O1.alltx", vpHasAllTx(d) && vpSameTxs(d.TransactionHashes, req.txs))
 				vAssert("C04.O1.names", p.prep == req.Hash())
-				if d.isAntiMEVExtensionEnabled() {
+				if e.amevOn() {
 					vAssert("C04.O1.verified", e.verifiedPreOK && e.verifiedPreHash == vpPreBlockHashFromCtx(d))
 				} else {
 					vAssert("C04.O1.verified", e.verifiedOK && e.verifiedHash == vpBlockHashFromCtx(d))
 				}
 			}
 		case CommitType, PreCommitType:
-			first := p.typ == PreCommitType && e.preOwnPreCommit == nil || p.typ == CommitType && e.preOwnCommit == nil && !d.isAntiMEVExtensionEnabled()
+			first := p.typ == PreCommitType && e.preOwnPreCommit == nil || p.typ == CommitType && e.preOwnCommit == nil && !e.amevOn()
 			if first {
 				vAssert("C04.O2.proposal", req != nil)
 				if req != nil {
@@ -261,7 +261,7 @@ func (e *vEnv) broadcast(m ConsensusPayload[vhash]) {
 		vAssert("C15.O4.context", d.Timestamp == p.ts && d.Nonce == p.nonce && vpSameTxs(d.TransactionHashes, p.txs) && len(d.Transactions) == len(p.txs))
 	}
 	if e.want("C07") {
-		amev := d.isAntiMEVExtensionEnabled()
+		amev := e.amevOn()
 		if p.typ == PreCommitType {
 			vAssert("C07.O4.noprecommit", amev)
 		}
@@ -281,7 +281,7 @@ func (e *vEnv) processBlock(b Block[vhash]) error {
 	vCover("event.processblock")
 	if e.want("C02") {
 		valid := vpValidCommits(d, bh)
-		kf := !d.isAntiMEVExtensionEnabled() && e.kf1()
+		kf := !e.amevOn() && e.kf1()
 		vKnown("KF-1", kf && valid < d.M())
 		vAssert("C02.O1.certificate", kf || valid >= d.M())
 		vAssert("C02.O3.index", vb.idx == e.height+1)
@@ -302,7 +302,7 @@ func (e *vEnv) processBlock(b Block[vhash]) error {
 		vAssert("C05.O1.flag", !d.blockProcessed)
 	}
 	if e.want("C07") {
-		vAssert("C07.O3.block", !d.isAntiMEVExtensionEnabled() || d.preBlockProcessed)
+		vAssert("C07.O3.block", !e.amevOn() || d.preBlockProcessed)
 	}
 	if vUF(kProcessBlock, uint64(bh), uint64(e.nProcessBlock)) != 0 {
 		return &vErr{}
@@ -326,7 +326,7 @@ func (e *vEnv) processPreBlock(b PreBlock[vhash]) error {
 		}
 	}
 	if e.want("C07") {
-		vAssert("C07.O4.nopreblock", d.isAntiMEVExtensionEnabled())
+		vAssert("C07.O4.nopreblock", e.amevOn())
 		vAssert("C07.O2.once", !d.preBlockProcessed && !e.prePreBlockProcessed || e.api == apiReset || e.api == apiStart)
 		vAssert("C07.O2.oncepercall", e.nProcessPreOK == 0 || e.api == apiReset || e.api == apiStart)
 	}
